@@ -55,13 +55,15 @@ func main() {
 		os.Exit(2)
 	}
 	syncMap := map[string]string{"sync": "verif/vrt/vsync"}
+	// calls that change process-wide state (not used by the repository today; a change that introduces one gets a scheduling point)
+	proc := []selRule{{"os", "Chdir", "Chdir"}, {"os", "Setenv", "Setenv"}, {"os", "Unsetenv", "Unsetenv"}, {"syscall", "Umask", "Umask"}}
 	cfgs := []pkgCfg{
 		{tag: "whispertool", dir: *repo,
-			sel: []selRule{{"time", "Now", "Now"}, {"os", "Getpagesize", "Getpagesize"},
-				{"syscall", "Flock", "Flock"}, {"golang.org/x/sys/unix", "Flock", "Flock"}},
+			sel: append([]selRule{{"time", "Now", "Now"}, {"os", "Getpagesize", "Getpagesize"},
+				{"syscall", "Flock", "Flock"}, {"golang.org/x/sys/unix", "Flock", "Flock"}}, proc...),
 			imports: syncMap, goStmts: true},
 		{tag: "cmd", dir: filepath.Join(*repo, "cmd"),
-			sel: []selRule{{"time", "Now", "Now"}},
+			sel: append([]selRule{{"time", "Now", "Now"}}, proc...),
 			imports: map[string]string{"sync": "verif/vrt/vsync", "math/rand": "verif/vrt/vrand",
 				"crypto/rand": "verif/vrt/vcrand"}, goStmts: true},
 	}
